@@ -17,6 +17,7 @@ FILES = {
     "RoutineLemmas": "L-sym (lev_comm), L-hamdel (ham_symdel), lev_le_ham, L-count (coinc_eq_sum, cross_eq_sum), L-join (join_injective)",
     "CoincCong": "L-coinc-cong (coinc_congr, cross_congr), coinc_le, cross_le, coinc_perm",
     "HamBasic": "ham_comm, ham_eq_zero_iff",
+    "HamIndexForms": "ham x y = 1 / 2 / 3 <-> y is x with 1 / 2 / 3 strictly increasing positions replaced by different letters (ham_eq_two_iff, ham_eq_three_iff)",
     "InjCount": "L-inj-count: positions drawn without replacement hold a value at most as often as the source (inj_count_le); drawn multiplicities sum to the number of draws",
     "EncBound": "L-enc: sum_i (enc a i - enc b i)^2 <= 2 (lev a b)^2 for any binning (sqdist_enc_le)",
 }
@@ -30,7 +31,7 @@ USES = {
     "C07": ["SymdelLemma", "CombLemma", "OneEditAndHamming", "RoutineLemmas", "HamBasic", "EncBound"],
     "C10": ["SymdelLemma", "CombLemma", "StepLemmas", "RoutineLemmas"],
     "C11": ["EncBound", "StepLemmas"],
-    "C12": ["StepLemmas", "OneEditAndHamming", "HamBasic"],
+    "C12": ["StepLemmas", "OneEditAndHamming", "HamBasic", "HamIndexForms"],
     "C17": ["InjCount"],
     "C14": ["SymdelLemma", "CombLemma", "StepLemmas", "OneEditAndHamming", "RoutineLemmas"],
 }
